@@ -1,7 +1,7 @@
 """C07 driver (R)+(T): TLC-generated interleavings replayed on the real genotype-based representations."""
 from __future__ import annotations
 
-import argparse
+import argparse, copy
 import json
 
 from harness.common import Batch, rng, write_summary, exc_name, time_limit
@@ -47,11 +47,19 @@ def used_decider(dec, g, src):
     return dec
 
 
-def run_sequence(R, g, rname, mk, seq, refined):
+def run_sequence(R, g, rname, mk, seq, refined, fresh_ok=True):
     src = RecordingSource(NativeRandomSource(R.randint(0, 10 ** 6)))
     rep = mk(src)
     genos = []
     evs = []
+    content_ids = {}
+    rep_used = rep
+
+    def fresh_rep():
+        # a second representation object of the same grammar, built around a source of its own: no history at all
+        # (not for the variants whose decider object was USED before it was lent: what such a decider remembers -
+        # PositionIndependentGrowDecider.expanding - differs between two objects with different pasts)
+        return mk(NativeRandomSource(7))
 
     def pick(i):
         return genos[i % len(genos)] if genos else None
@@ -69,15 +77,46 @@ def run_sequence(R, g, rname, mk, seq, refined):
                 elif act == "xo" and genos:
                     a, b = rep.crossover(src, pick(i), pick(i + 1))
                     genos += [a, b]
+                elif act == "recycle" and genos and rname != "dsge":
+                    # a genotype is mapped and dies; a new object of the same class with the same codons in another order
+                    # is allocated straight afterwards (CPython hands out the freed address again) and joins the family
+                    old = genos.pop()
+                    try:
+                        rep.genotype_to_phenotype(old)
+                    except Exception:
+                        pass
+                    cls, state = type(old), copy.deepcopy(old.__dict__)
+                    d = state.get("dna")
+                    if isinstance(d, dict):
+                        for v in d.values():
+                            if isinstance(v, list):
+                                v.reverse()
+                    elif isinstance(d, list):
+                        d.reverse()
+                    del old
+                    new = cls.__new__(cls)
+                    new.__dict__.update(state)
+                    genos.append(new)
+                elif act == "recycle":
+                    pass  # dynamic SGE: identity is the object, nothing to recycle
                 elif act == "map" and genos:
                     gt = pick(i)
                     gid = next(k for k, x in enumerate(genos) if x is gt) + 1
+                    if rname != "dsge":
+                        # "the same genotype" is the same GENES (dynamic SGE extends its genotype from the shared source,
+                        # so there only the object is the same genotype): equal genes share one id, whichever object and
+                        # whichever representation object of this grammar maps them
+                        gid = content_ids.setdefault(json.dumps(genes_of(gt), sort_keys=True, default=str), 1000 + len(content_ids))
+                        if i % 3 == 2 and fresh_ok:
+                            rep_used = fresh_rep()
                     before, db = genes_of(gt), src.count
                     exc, prog = "", None
                     try:
-                        prog = rep.genotype_to_phenotype(gt)
+                        prog = rep_used.genotype_to_phenotype(gt)
                     except Exception as e:
                         exc = exc_name(e)
+                    finally:
+                        rep_used = rep
                     after, da = genes_of(gt), src.count
                     eb, ea = struct_encode([before, after])
                     evs.append({"e": "map", "gid": gid, "rep": rname, "exc": exc,
@@ -138,10 +177,12 @@ def main():
             # crossed over, every parent mutated, and each offspring is mapped twice with other draws in between
             fam = [["create", 0], ["create", 0], ["map", 0], ["map", 1], ["map", 2], ["xo", 0], ["xo", 1], ["mutate", 0],
                    ["mutate", 2], ["map", 3], ["map", 4], ["draw", 0], ["map", 5], ["map", 6], ["map", 7], ["map", 8],
-                   ["draw", 0], ["map", 3], ["map", 4], ["map", 5], ["map", 6], ["map", 7], ["map", 8], ["map", 0]]
+                   ["draw", 0], ["map", 3], ["map", 4], ["map", 5], ["map", 6], ["map", 7], ["map", 8], ["map", 0],
+                   ["recycle", 0], ["map", 8], ["map", 8], ["recycle", 0], ["map", 8], ["recycle", 0], ["map", 7], ["map", 8],
+                   ["map", 2], ["map", 5]]
             for ri, (rname, mk) in enumerate(reps):
                 for j in range(2 if quick else 10):
-                    evs = run_sequence(R, g, rname, mk, fam, refined)
+                    evs = run_sequence(R, g, rname, mk, fam, refined, fresh_ok=ri < 7)
                     if evs:
                         batch.trace(f"{spec['id']}/{rname}{ri}/family{j}", evs, {"k": "c07", "refined": refined, "seq": fam})
                         nev += len(evs)
@@ -150,7 +191,7 @@ def main():
                 for j in range(per):
                     seq = seqs[(k * 7 + j * 13 + ri) % len(seqs)]
                     k += 1
-                    evs = run_sequence(R, g, rname, mk, seq, refined)
+                    evs = run_sequence(R, g, rname, mk, seq, refined, fresh_ok=ri < 7)
                     if evs:
                         batch.trace(f"{spec['id']}/{rname}{ri}/{j}", evs, {"k": "c07", "refined": refined, "seq": seq})
                         nev += len(evs)
